@@ -33,6 +33,7 @@ import (
 
 	"github.com/pion/rtp"
 	"github.com/pion/webrtc/v4/pkg/rtcerr"
+	"verifsim/simrt"
 )
 
 type c21Closer struct {
@@ -46,15 +47,21 @@ type c21Case struct {
 	Closers   []c21Closer `json:"closers"`
 	HandlerMs int         `json:"handler_ms,omitempty"` // A's event handlers take this much fake time
 	WithMedia bool        `json:"with_media,omitempty"`
+	RecvOnly  bool        `json:"recv_only,omitempty"` // the peer also owns receive-only audio and video transceivers (no sender attached)
 	Busy      bool        `json:"busy,omitempty"` // another goroutine keeps calling the mutating API on A while it is closed
 	DelayUs   int         `json:"delay_us"`
 	NetSeed   uint64      `json:"net_seed"`
+	// Coop: the close calls are tasks of the seeded cooperative scheduler (scheduling points at every
+	// lock/atomic site of the close path); no goroutine census in this mode
+	Coop      bool           `json:"coop,omitempty"`
+	SchedSeed uint64         `json:"sched_seed,omitempty"`
+	Strat     simrt.Strategy `json:"strat"`
 }
 
 func c21Gen(seed uint64, idx, total int, tier string) any {
 	r := vfNewRand(seed, "c21")
 	c := &c21Case{Phase: vfPick(r, []string{"new", "offered", "ice", "ice", "connected", "connected", "data", "data"}), BOffers: r.Bool(0.4),
-		HandlerMs: vfPick(r, []int{0, 0, 3, 40, 700}), WithMedia: r.Bool(0.4), Busy: r.Bool(0.4), DelayUs: vfPick(r, []int{0, 500, 5000}), NetSeed: r.U64()}
+		HandlerMs: vfPick(r, []int{0, 0, 3, 40, 700}), WithMedia: r.Bool(0.4), RecvOnly: r.Bool(0.5), Busy: r.Bool(0.4), DelayUs: vfPick(r, []int{0, 500, 5000}), NetSeed: r.U64()}
 	n := r.Range(1, 4)
 	for i := 0; i < n; i++ {
 		c.Closers = append(c.Closers, c21Closer{Graceful: r.Bool(0.55), DelayMs: vfPick(r, []int{0, 0, 0, 1, 2, 10, 50, 300, 1500})})
@@ -63,6 +70,22 @@ func c21Gen(seed uint64, idx, total int, tier string) any {
 }
 
 var rtpPacketForC21 = rtp.Packet{Header: rtp.Header{Version: 2, PayloadType: 96, SSRC: 1}, Payload: []byte{1, 2, 3, 4}}
+
+func c21GenCoop(seed uint64, idx, total int, tier string) any {
+	c := c21Gen(seed, idx, total, tier).(*c21Case)
+	r := vfNewRand(seed, "c21coop")
+	c.Coop, c.SchedSeed, c.Strat = true, r.U64(), vfGenStrategy(r)
+	if len(c.Closers) < 2 {
+		c.Closers = append(c.Closers, c21Closer{Graceful: r.Bool(0.5)})
+	}
+	for i := range c.Closers {
+		c.Closers[i].DelayMs = vfPick(r, []int{0, 0, 0, 1, 5}) // overlapping calls are the point here
+	}
+	if c.HandlerMs > 40 {
+		c.HandlerMs = 40
+	}
+	return c
+}
 
 func vfAs(label string, f func()) {
 	pprof.Do(context.Background(), pprof.Labels("vfpc", label), func(context.Context) { f() })
@@ -126,6 +149,8 @@ func c21Run(t *testing.T, cj []byte, res *vfResult) {
 	}
 	var lines []string
 	var mu sync.Mutex
+	var trace []simrt.Step
+	preempts := 0
 	logf := func(f string, a ...any) {
 		mu.Lock()
 		lines = append(lines, fmt.Sprintf(f, a...))
@@ -185,6 +210,10 @@ func c21Run(t *testing.T, cj []byte, res *vfResult) {
 			if err == nil && c.WithMedia {
 				track, _ = NewTrackLocalStaticRTP(RTPCodecCapability{MimeType: MimeTypeVP8, ClockRate: 90000}, "t", "s")
 				sender, _ = a.pc.AddTrack(track)
+			}
+			if err == nil && c.RecvOnly {
+				_, _ = a.pc.AddTransceiverFromKind(RTPCodecTypeVideo, RTPTransceiverInit{Direction: RTPTransceiverDirectionRecvonly})
+				_, _ = a.pc.AddTransceiverFromKind(RTPCodecTypeAudio, RTPTransceiverInit{Direction: RTPTransceiverDirectionRecvonly})
 			}
 		})
 		if err != nil {
@@ -258,13 +287,14 @@ func c21Run(t *testing.T, cj []byte, res *vfResult) {
 			}
 		}
 		stop := make(chan struct{})
+		var stopOnce sync.Once
 		var bg sync.WaitGroup
 		if c.Phase == "data" {
 			bg.Add(1)
 			go func() {
 				defer bg.Done()
 				vfAs("A", func() {
-					for i := 0; ; i++ {
+					for i := 0; !c.Coop || i < 12; i++ { // (bounded under the cooperative scheduler: a strict-priority strategy must not starve the close calls)
 						select {
 						case <-stop:
 							return
@@ -284,7 +314,7 @@ func c21Run(t *testing.T, cj []byte, res *vfResult) {
 			go func() {
 				defer bg.Done()
 				vfAs("A", func() {
-					for i := 0; ; i++ {
+					for i := 0; !c.Coop || i < 12; i++ { // (bounded under the cooperative scheduler: a strict-priority strategy must not starve the close calls)
 						select {
 						case <-stop:
 							return
@@ -317,9 +347,25 @@ func c21Run(t *testing.T, cj []byte, res *vfResult) {
 		results := make([]closeRes, len(c.Closers))
 		censuses := 0
 		tClose := time.Now()
+		var sched *simrt.Sched
+		if c.Coop {
+			// (functions of the close path only: a dependency's goroutine that calls back into webrtc while
+			// holding the dependency's own mutex must not be parked)
+			sched = simrt.NewSched(c.SchedSeed, c.Strat, "peerconnection.go:close", "peerconnection.go:Close", "peerconnection.go:GracefulClose",
+				"peerconnection.go:updateConnectionState", "peerconnection.go:refreshConnectionState", "peerconnection.go:onConnectionStateChange",
+				"operations.go", "icetransport.go:stop", "icetransport.go:Stop", "icetransport.go:GracefulStop", "icegatherer.go:close", "icegatherer.go:Close",
+				"icegatherer.go:GracefulClose", "dtlstransport.go:Stop", "sctptransport.go:Stop", "rtptransceiver.go:Stop", "harness:")
+		}
+		spawn := func(name string, f func()) {
+			if sched != nil {
+				sched.Go(name, func() { simrt.Yield("harness:start:1"); f() })
+			} else {
+				go f()
+			}
+		}
 		for i, cl := range c.Closers {
 			i, cl := i, cl
-			go func() {
+			spawn(fmt.Sprintf("closer%d", i), func() {
 				time.Sleep(time.Duration(cl.DelayMs) * time.Millisecond)
 				var e error
 				vfAs("A", func() {
@@ -331,7 +377,7 @@ func c21Run(t *testing.T, cj []byte, res *vfResult) {
 				})
 				at := time.Since(tClose)
 				var alive []string
-				if cl.Graceful {
+				if cl.Graceful && sched == nil {
 					time.Sleep(time.Nanosecond) // returns at the next quiescent instant
 					alive = c21Census("A")
 					mu.Lock()
@@ -340,20 +386,41 @@ func c21Run(t *testing.T, cj []byte, res *vfResult) {
 				}
 				mu.Lock()
 				results[i] = closeRes{true, e, at, alive}
-				mu.Unlock()
-			}()
-		}
-		allBack := vfWaitFor(180*time.Second, func() bool {
-			mu.Lock()
-			defer mu.Unlock()
-			for _, r := range results {
-				if !r.returned {
-					return false
+				back := 0
+				for _, r := range results {
+					if r.returned {
+						back++
+					}
 				}
-			}
-			return true
-		})
-		close(stop)
+				if back == len(results) {
+					stopOnce.Do(func() { close(stop) }) // the background callers end with the last close call
+				}
+				mu.Unlock()
+			})
+		}
+		allBack := false
+		coopNote := ""
+		if sched != nil {
+			outcome := sched.Run(300000, 2*time.Millisecond, 2000)
+			coopNote = fmt.Sprintf("scheduler outcome %s after %d steps; unfinished: %s; lock waits: %s", outcome, len(sched.Trace), strings.Join(sched.Unfinished(), "; "), strings.Join(simrt.BlockedReport(), "; "))
+			trace = append(trace, sched.Trace...)
+			preempts = sched.Preempts
+			vfSettle(0)
+			sched.StopIf(outcome == "done")
+			allBack = outcome == "done"
+		} else {
+			allBack = vfWaitFor(180*time.Second, func() bool {
+				mu.Lock()
+				defer mu.Unlock()
+				for _, r := range results {
+					if !r.returned {
+						return false
+					}
+				}
+				return true
+			})
+		}
+		stopOnce.Do(func() { close(stop) })
 		mu.Lock()
 		snapshot := append([]closeRes{}, results...)
 		mu.Unlock()
@@ -369,7 +436,7 @@ func c21Run(t *testing.T, cj []byte, res *vfResult) {
 			r := snapshot[i]
 			logf("closer %d %s at +%dms: returned=%v after %v err=%v", i, kind(cl.Graceful), cl.DelayMs, r.returned, r.at, r.err)
 			if !r.returned {
-				res.violate("close-call-did-not-return:"+kind(cl.Graceful), fmt.Sprintf("phase %s, calls %v: %s #%d had not returned 180 s (fake) after the calls started; goroutines of A: %v", c.Phase, order, kind(cl.Graceful), i, c21Census("A")))
+				res.violate("close-call-did-not-return:"+kind(cl.Graceful), fmt.Sprintf("phase %s, calls %v: %s #%d had not returned 180 s (fake) after the calls started; %s goroutines of A: %v", c.Phase, order, kind(cl.Graceful), i, coopNote, c21Census("A")))
 			}
 			if r.returned && cl.Graceful && len(r.alive) > 0 {
 				res.violate("goroutine-alive-after-gracefulclose-returned", fmt.Sprintf("phase %s handler_ms %d: GracefulClose #%d returned after %v and these goroutines started by the connection were still alive at the next quiescent instant: %v", c.Phase, c.HandlerMs, i, r.at, r.alive))
@@ -433,6 +500,11 @@ func c21Run(t *testing.T, cj []byte, res *vfResult) {
 				_, e := a.pc.AddTrack(tr)
 				return e
 			}},
+			{"AddTrack(video)", func() error {
+				tr, _ := NewTrackLocalStaticRTP(RTPCodecCapability{MimeType: MimeTypeVP8, ClockRate: 90000}, "latev", "late")
+				_, e := a.pc.AddTrack(tr)
+				return e
+			}},
 			{"AddTransceiverFromKind", func() error { _, e := a.pc.AddTransceiverFromKind(RTPCodecTypeVideo); return e }},
 			{"AddTransceiverFromTrack", func() error {
 				tr, _ := NewTrackLocalStaticRTP(RTPCodecCapability{MimeType: MimeTypeOpus, ClockRate: 48000, Channels: 2}, "late2", "late2")
@@ -472,6 +544,20 @@ func c21Run(t *testing.T, cj []byte, res *vfResult) {
 	mu.Lock()
 	res.Log = append([]string{fmt.Sprintf("phase=%s bOffers=%v handlerMs=%d media=%v busy=%v", c.Phase, c.BOffers, c.HandlerMs, c.WithMedia, c.Busy)}, append(lines, res.Log...)...)
 	mu.Unlock()
+	if c.Coop {
+		res.Steps = len(trace)
+		res.stat("preemptions", int64(preempts))
+		sig := append([]string{}, res.Log...)
+		for _, st := range trace {
+			sig = append(sig, fmt.Sprintf("%d@%s", st.Task, st.Site))
+		}
+		res.Sig = vfSig(sig)
+		if (res.Verdict == "ok" || res.Verdict == "violation") && preempts > 0 {
+			res.Nontrivial = res.Sig
+		}
+		vfKeepSchedule(res, &c.Strat, trace, &c)
+		return
+	}
 	res.Sig = vfSig(res.Log)
 	if res.Verdict == "ok" || res.Verdict == "violation" {
 		res.Nontrivial = res.Sig
@@ -479,6 +565,13 @@ func c21Run(t *testing.T, cj []byte, res *vfResult) {
 }
 
 func init() {
+	vfRegister(&vfProp{
+		ID: "C21D", Level: "exploration", ReplayClass: "decision-exact",
+		Gen: c21GenCoop, Run: c21Run,
+		Rule: "as C21, but the 2-4 close calls (and whatever else runs) are interleaved by the seeded cooperative scheduler at every lock/atomic site of the close path (PeerConnection.close/Close/GracefulClose and the connection-state update, operations.go, the Stop/close functions of the ICE transport and gatherer, DTLS, SCTP and transceivers); no goroutine census; non-trivial = at least one preemption, distinct = hash of (history, schedule)",
+		Real: []string{"both PeerConnections with real ICE, DTLS, SCTP, SRTP, operations queue", "vnet"},
+		Stub: []string{"network: vnet + seeded per-datagram fate", "signaling: in-process"},
+	})
 	vfRegister(&vfProp{
 		ID: "C21", Level: "exploration", ReplayClass: "decision-exact",
 		Gen: c21Gen, Run: c21Run,
